@@ -31,7 +31,7 @@ ASSUMPTIONS = [
     'time.time() is side-effect free',
 ]
 TRUSTED_BASE = ['pyvc engine', 'z3 (sets, arrays, strings with equality only)', 'fold step table in contracts/C19.py']
-NOT_DECIDED = ['RoomList.Response: the closing normalisation loop is under contract, the four list loops and the removal of unlisted rooms are not', 'JoinRoom.Response / RoomTickers.Response: bounded stand-in only (lists of length <= 2)', 'JoinRoom.Response: the weakest reading is used for the user list (superset of the announced users, nothing outside old + announced)']
+NOT_DECIDED = ['RoomList.Response: the closing normalisation loop is under contract, the four list loops and the removal of unlisted rooms are not', 'JoinRoom.Response / RoomTickers.Response: the loops are under contract (one arbitrary element); the whole-handler fold is additionally run as a bounded stand-in (lists of length <= 2)', 'JoinRoom.Response: the weakest reading is used for the user list (superset of the announced users, nothing outside old + announced)']
 
 
 def sstr(ctx, name):
@@ -588,6 +588,136 @@ def prove_replica_loops(src_root, ex: Explorer):
         pu = mgr.attrs['_privileged_users']
         ctx.prove('C19._on_privileged_users.set', isinstance(pu, SymSet) and ctx.valid(pu.term == users.elems))
     ex.run(privileged, 'privileged-users')
+
+
+    def join_room_loop(ctx: Ctx):
+        """JoinRoom.Response, the loop over the announced users, one ARBITRARY index i (lists of any length): the user object of users[i]
+        gets status, statistics, country and free slots of the i-th entries and is in the room afterwards; nobody else is added"""
+        it = mk(src_root, ctx)
+        w = World(it, ctx)
+        I_ = z3.IntSort()
+        US, ST, CC, SL = (z3.Function(n, I_, so) for n, so in (('users', S), ('status', I_), ('country', S), ('slots', I_)))
+        SP, UP, FC, DC = (z3.Function(n, I_, I_) for n in ('avg_speed', 'uploads', 'files', 'folders'))
+        i = ctx.fresh_int('i')
+        n = ctx.fresh_int('n_users')
+        ctx.assume(z3.And(i >= 0, i < n))
+        stcls = cls(it, UMODEL, 'UserStatus')
+        ctx.assume(z3.Or(*[ST(i) == m.value for m in stcls.enum_members]))          # a valid wire value (others raise ValueError: C02)
+        exp_idx = z3.IntVal(stcls.enum_members[-1].index)
+        for m in stcls.enum_members[:-1]:
+            exp_idx = z3.If(ST(i) == m.value, z3.IntVal(m.index), exp_idx)
+
+        class IdxList:
+            def __init__(self, fn, kind, wrap=None):
+                self.fn, self.kind, self.wrap = fn, kind, wrap
+
+            def pyvc_getitem(self, it2, idx):
+                t = self.fn(z3int(unbox(idx)))
+                return self.wrap(t) if self.wrap else Sym(t, self.kind)
+
+            def pyvc_iter(self, it2, loop):
+                raise Unsupported('iteration over a message list without a contract')
+
+            def pyvc_truth(self, it2):
+                return n > 0
+        stats = IdxList(None, None, wrap=None)
+        stats.pyvc_getitem = lambda it2, idx: new(it2, 'protocol.primitives', 'UserStats', avg_speed=Sym(SP(z3int(unbox(idx))), 'int'), uploads=Sym(UP(z3int(unbox(idx))), 'int'),
+                                                  shared_file_count=Sym(FC(z3int(unbox(idx))), 'int'), shared_folder_count=Sym(DC(z3int(unbox(idx))), 'int'))
+        users = IdxList(US, 'str')
+        # UserStatus(value) by the value of the member: the status list carries the wire values
+        vals = [m.value for m in stcls.enum_members]
+        msg = Stub('JoinRoom.Response', room=sstr(ctx, 'room'), users=users, users_status=IdxList(ST, 'int'), users_stats=stats,
+                   users_countries=IdxList(CC, 'str'), users_slots_free=IdxList(SL, 'int'), owner=None, operators=None)
+        seen = []
+
+        class En:
+            pass
+
+        def enumerate_(it2, a, k):
+            if a[0] is users:
+                return ('enumerate', users)
+            raise Unsupported('enumerate')
+        it.natives['builtins.enumerate'] = Native('builtins.enumerate', enumerate_)
+
+        def loop(it2, node, env):
+            src = it2.eval(node.iter, env)
+            room = env.lookup('room')
+            before = World.snapshot(room)['users']
+            it2.assign(node.target, (Sym(i, 'int'), Sym(US(i), 'str')), env)
+            it2.exec_block(node.body, env)
+            seen.append((src, room, before))
+        it.loop_specs[(f'{RM}:RoomManager._on_join_room', 0)] = loop
+        try:
+            run(it, it.getattr(w.mgr, '_on_join_room'), msg, Opaque('connection'))
+        except PyRaise as pr:
+            ctx.fail('C19._on_join_room.loop.no-raise', repr(pr.exc))
+            return
+        ok = len(seen) == 1 and seen[0][0] == ('enumerate', users)
+        ctx.prove('C19._on_join_room.loop.iterates-users', ok)
+        if not ok:
+            return
+        _, room, before = seen[0]
+        e = w.users._find(it, Sym(US(i), 'str'), create=False) if hasattr(w.users, '_find') else None
+        u = [x[1] for x in w.users.entries if x[2] and ctx.valid(z3str(unbox(x[0])) == US(i))]
+        ctx.prove('C19._on_join_room.loop.user-object', len(u) == 1, 'the user object of the announced name must be looked up (created when unknown)')
+        if len(u) != 1:
+            return
+        u = u[0]
+        a = u.attrs
+        conj = [same(a['status'], Sym(exp_idx, 'enum', stcls)), same(a['country'], Sym(CC(i), 'str')), same(a['slots_free'], Sym(SL(i), 'int')),
+                same(a['avg_speed'], Sym(SP(i), 'int')), same(a['uploads'], Sym(UP(i), 'int')),
+                same(a['shared_file_count'], Sym(FC(i), 'int')), same(a['shared_folder_count'], Sym(DC(i), 'int'))]
+        conj = [z3.BoolVal(c) if isinstance(c, bool) else c for c in conj]
+        ctx.prove('C19._on_join_room.loop.user-fields', z3.And(*conj), 'the i-th user gets the i-th status, statistics, country and free slots')
+        after = World.snapshot(room)['users']
+        ctx.prove('C19._on_join_room.loop.room-gains-user', after == z3.SetAdd(before, US(i)), 'the room gains exactly the announced user')
+    ex.run(join_room_loop, 'join-room-loop')
+
+    def tickers_loop(ctx: Ctx):
+        """RoomTickers.Response: the new ticker map starts EMPTY (the list replaces the tickers of the room), one arbitrary entry stores its
+        ticker under its user (a later entry of the same user wins), and the map built by the loop becomes the room's tickers"""
+        it = mk(src_root, ctx)
+        w = World(it, ctx)
+
+        class Tickers:
+            def pyvc_iter(self, it2, loop):
+                raise Unsupported('iteration over the tickers without a contract')
+        tl = Tickers()
+        un, tx = sstr(ctx, 'ticker_user'), sstr(ctx, 'ticker_text')
+        entry = Stub('RoomTicker', username=un, ticker=tx)
+        msg = Stub('RoomTickers.Response', room=sstr(ctx, 'room'), tickers=tl)
+        state = {}
+        it.natives['collections.OrderedDict'] = Native('collections.OrderedDict', lambda it2, a, k: {} if not a else (_ for _ in ()).throw(Unsupported('OrderedDict(x)')))
+
+        def loop(it2, node, env):
+            src = it2.eval(node.iter, env)
+            empties = [k for k, v in env.vars.items() if isinstance(v, dict) and not v]
+            state['src'], state['empties'] = src, empties
+            if len(empties) != 1:
+                return
+            m0 = SymMap.fresh(ctx, 'built_so_far')
+            state['m0'] = (m0.dom, m0.val)
+            env.vars[empties[0]] = m0
+            state['map'] = m0
+            it2.assign(node.target, entry, env)
+            it2.exec_block(node.body, env)
+        it.loop_specs[(f'{RM}:RoomManager._on_chat_room_tickers', 0)] = loop
+        try:
+            run(it, it.getattr(w.mgr, '_on_chat_room_tickers'), msg, Opaque('connection'))
+        except PyRaise as pr:
+            ctx.fail('C19._on_chat_room_tickers.loop.no-raise', repr(pr.exc))
+            return
+        ctx.prove('C19._on_chat_room_tickers.loop.starts-empty', state.get('src') is tl and len(state.get('empties', [])) == 1,
+                  'the ticker list REPLACES the tickers: the map must be built from an empty one')
+        if 'map' not in state:
+            return
+        m = state['map']
+        d0, v0 = state['m0']
+        ctx.prove('C19._on_chat_room_tickers.loop.stores-entry', z3.And(m.dom == z3.SetAdd(d0, un.t), m.val == z3.Store(v0, un.t, tx.t)),
+                  "an entry must store its ticker under its user's name (overwriting an earlier entry of that user) and nothing else")
+        room = [e[1] for e in w.rooms.entries if e[2]][0]
+        ctx.prove('C19._on_chat_room_tickers.loop.assigns', room.attrs['tickers'] is m, 'the map built by the loop must become the room\'s tickers')
+    ex.run(tickers_loop, 'tickers-loop')
 
 
 def items(src_root, tier):
